@@ -245,6 +245,10 @@ func (r *Run) sinkOpsRec(fd *FuncDecl, onPath map[*FuncDecl]bool, depth int) []s
 				cc := u.condContext(it.call)
 				for _, op := range r.sinkOpsRec(it.helper, onPath, depth+1) {
 					op = ps.apply(op)
+					// an operation a literal performs through a helper is still performed inside the literal
+					if pfx != "" && !strings.HasPrefix(op, pfx) {
+						op = pfx + op
+					}
 					out = append(out, mergeContexts(op, sfx, cc))
 				}
 			} else {
